@@ -11,9 +11,12 @@ import collections
 from ..core import walk, strip, is_var, callee, const_of, show, short_loc, dominators
 from ..result import RuleResult, Violation
 
-PAIRS = {"ILLlp_basis::nrows": "ILLlp_basis::rownorms", "ILLlp_basis::nstruct": "ILLlp_basis::colnorms"}
+PAIRS = {"ILLlp_basis::nrows": "ILLlp_basis::rownorms", "ILLlp_basis::nstruct": "ILLlp_basis::colnorms",
+         # the symbol table's entry count and the validity flag of its cached name -> index map
+         "ILLsymboltab::tablesize": "ILLsymboltab::index_ok"}
 
 
+DECREMENT_ONLY = {"ILLsymboltab::tablesize"}
 EXCEPT = {"ILLlib_delcols": "when a basic column is deleted (bok == 0) neither the statuses nor the norms are compacted: the function reports "
                             "*basis_ok = 0 and its caller QSdelete_cols releases the whole basis record"}
 
@@ -32,13 +35,18 @@ def run(prog, rule="R-NORMLEN", floor=3):
         changes = []
         for b, i, e in f.elements():
             tgt = None
+            decr = False
             if e[0] == "U" and e[1][1][:2] in ("++", "--"):
                 tgt = strip(e[1][2])
+                decr = e[1][1][:2] == "--"
             elif e[0] == "A" and e[1][1] in ("+=", "-="):
                 tgt = strip(e[1][2])
+                decr = e[1][1] == "-="
             if isinstance(tgt, list) and tgt and tgt[0] == "m":
                 for cnt, norms in PAIRS.items():
-                    if tgt[2].endswith(cnt):
+                    if cnt in DECREMENT_ONLY and not decr:
+                        continue            # an appended entry carries its own index: only removals renumber
+                    if tgt[2].endswith(cnt) or tgt[2] == cnt:
                         changes.append((b["id"], i, e, cnt, norms))
         if not changes:
             continue
@@ -86,7 +94,7 @@ def run(prog, rule="R-NORMLEN", floor=3):
                 elif e[2] in bad:
                     b0, st0 = bad[e[2]]
                     res.violations.append(Violation(rule, "%s|%s changed without %s" % (f.name.replace("mpq_", ""), cnt.split("::")[1], norms.split("::")[1]), f.name, short_loc(e[2]),
-                                                    "%s changes the count of the basis record, and a return is reachable on a path that neither before nor after releases, "
+                                                    "%s changes the count, and a return is reachable on a path that neither before nor after releases, "
                                                     "re-allocates, compacts or tests %s: the array no longer has one entry per %s and is loaded by the count" % (
                                                         show(e[1])[:50], norms.split("::")[1], "row" if "rows" in cnt else "column"), path=flw.witness(b0, st0)))
                 else:
